@@ -427,4 +427,4 @@ def main():
 
 
 if __name__ == '__main__':
-    sys.exit(main())
+    sys.exit(common.run_main(main))
